@@ -14,6 +14,10 @@ Lanes (clang ASan+UBSan build unless stated, EVERY execution under ONE wall-cloc
   fanout    (plain cc build, RLIMIT_AS 1 GiB) every value refers F times to the next one on up to three levels: the result is
             F^levels copies of the leaf; through -v, through the configuration alone, through a step file; the result is
             compared with leaf x F^levels computed here
+  fuzz      (harness/c12_fuzz.py) COVERAGE-GUIDED: libFuzzer (clang -fsanitize=fuzzer,address,undefined) on a scratch copy: the
+            repository's own fuzz-config (five modes) and fuzz-step targets plus harness/c12_fuzz_{conf,stepread,interp,regresslog,
+            report}.c; seeds = the grammar-derived seeds of the lanes above, dictionaries from the sources, -timeout=5,
+            -rss_limit_mb=2048, -seed from VERIF_SEED; an artefact is an oracle failure fuzz-<target>-<kind> whose bytes replay
 Oracle on every execution: no sanitizer report, no signal, no timeout, exit status in the documented set,
 a rejection prints a diagnostic and nothing on standard output."""
 import hashlib, json, glob, os, re, resource, shutil, subprocess, random
@@ -26,7 +30,10 @@ TRUSTED = ['memory safety / undefined behaviour of the C code is OBSERVED with c
            'models used for comparison: C01 (step file), C13 (regress log), C09 (interpolation); the configuration parser is compared with its model (Conf/ConfDefs.v: exit, '
            'stdout, trap flag) in the reentry lane only, elsewhere against the exit-status/diagnostic oracle (C08 compares it with its model on grammar-derived inputs); '
            'robsd-step -L, robsd-ls, robsd-hook, robsd-report, robsd-regress-html are judged by the oracle only; inputs above MODEL_MAX bytes are not put to the list-based models',
-           'mutation is blind (byte level, on grammar-derived seeds), not coverage-guided',
+           'mutation in the lanes step, regress, config, interp, report, html is blind (byte level, on grammar-derived seeds); the lane fuzz is coverage-guided '
+           '(libFuzzer, in process, bounded by its time budget: 10 s per target in the quick tier, 120 s per target on 2-3 processes in the thorough tier); '
+           'robsd-regress-html and robsd-ls behind the directory scan have no coverage-guided target; in the fuzz lane glob(3) patterns with wildcards in more than one '
+           'path component are answered "no match" (harness/c12_fuzz_glob.c), LeakSanitizer results are recorded as observations, not failures',
            'translator t_conf.py: which body config_default_build_dir has (re-entry guard) decides whether C12_config_no_abort_holds_now checks']
 
 MODEL_MAX = 3000
@@ -690,45 +697,57 @@ def lane_fanout(ctx, impl_asan, work, res, rng, n):
             res.nontrivial.add('fanout-%s-%d-%d-%s' % (c['via'], c['F'], c['levels'], c['leaf'][:16]))
 
 
-LANES = [lane_seeds, lane_step, lane_regress, lane_config, lane_interp, lane_report, lane_html, lane_reentry, lane_fanout]
+def lane_fuzz(ctx, impl, work, res, rng, n):
+    """coverage-guided: libFuzzer on its own instrumented scratch build (harness/c12_fuzz.py)"""
+    import c12_fuzz
+    c12_fuzz.lane_fuzz(ctx, impl, work, res, rng, n)
 
 
-def run_all(ctx, res, n):
+LANES = [lane_seeds, lane_step, lane_regress, lane_config, lane_interp, lane_report, lane_html, lane_reentry, lane_fanout, lane_fuzz]
+
+
+def run_all(ctx, res, n, fuzz=True):
     impl = ctx.build_impl('-fsanitize=address,undefined -fno-sanitize-recover=all -g -O1', cc='clang', ldflags='-fsanitize=address,undefined')
     os.environ.setdefault('ASAN_OPTIONS', 'detect_leaks=0:abort_on_error=0')
     os.environ.setdefault('UBSAN_OPTIONS', 'print_stacktrace=0')
     work = ctx.mkscratch('c12')
     for lane in LANES:
+        if lane is lane_fuzz and not fuzz:
+            continue
         before = res.evaluations
         lane(ctx, impl, work, res, ctx.rng, n)
         if res.evaluations == before:
             res.tie_errors.append('%s produced no verdict' % lane.__name__)
 
 
-def run(ctx, n=None):
+def run(ctx, n=None, fuzz=True):
     res = common.Result()
     res.rule = ('clang ASan+UBSan build of robsd-config, robsd-step, robsd-ls, robsd-hook, robsd-report, robsd-regress-log, robsd-regress-html; inputs = grammar-derived seeds '
                 'of the five configuration grammars (each asserted to be accepted by every tool before mutation), step files, regress logs, templates, '
                 'report build directories, regress-html invocation trees, each with 0-6 byte-level mutations (NUL, quotes, braces, $, commas, deletions, repeated segments '
                 'up to 70 kB tokens, huge integers, deep nesting, truncation) plus raw random bytes; long values referenced several times; fan-out of references on up to '
                 'three levels (plain build under a 1 GiB address-space limit); one 5 s limit per execution in every lane; non-trivial = the mutated input was still accepted '
-                '(exit 0); distinct by content hash')
+                '(exit 0); distinct by content hash.  Coverage-guided lane: libFuzzer targets (repository fuzz-config x five modes, fuzz-step; harness conf, stepread, interp, '
+                'regresslog, report) seeded with the same grammar-derived seeds, executions / edge coverage / corpus size per target under coverage.fuzz')
     res.assumptions = TRUSTED[:2]
     n = n or ctx.budget(500, 12000)
-    run_all(ctx, res, n)
+    run_all(ctx, res, n, fuzz)
     res.samples = [{'lanes': [l.__name__ for l in LANES], 'per_lane': n}]
     res.traces_validated = res.evaluations
     return res
 
 
 def extended_search(ctx, res, proof):
-    return run(ctx, n=2500)
+    return run(ctx, n=2500, fuzz=False)
 
 
 def replay(ctx, rep):
     case = rep.get('case') or {}
     lane = case.get('lane')
     res = common.Result()
+    if lane == 'fuzz':
+        import c12_fuzz
+        return c12_fuzz.replay(ctx, case)
     if lane == 'fanout':
         impl = ctx.build_impl()
         work = ctx.mkscratch('c12r')
